@@ -17,7 +17,7 @@ THEOREMS = [
     'Pysmi.Pins.SkelC14.pin_fileReaderVariants',
     'Pysmi.Pins.SkelC14.pin_zipReaderGet',
     'Pysmi.Reader.C14_variants_sound',
-    'Pysmi.Reader.C14_variants_complete',
+    'Pysmi.Reader.C14_variants_complete', 'Pysmi.Reader.C14_variants_complete_all', 'Pysmi.Reader.C14_variants_total',
     'Pysmi.Reader.C14_variants_default_total',
     'Pysmi.Reader.C14_index_precedence',
     'Pysmi.Reader.C14_dir_lookup_sound',
@@ -50,9 +50,10 @@ EXTS = ['', '.txt', '.mib', '.my', '.TXT', '.MIB', '.MY']
 NAMES = ['IF-MIB', 'Mixed-Case-MIB', 'plain', 'SNMPv2-SMI', 'ACME-MIB-EXT', 'A', 'acme-mib', 'lower-mib-ext']
 
 
-def doc_variants(name, fuzzy, exts=EXTS):
-    """the documented variant set under the default switches (independent of the model)"""
-    cands = [name, name.upper(), name.lower()]
+def doc_variants(name, fuzzy, exts=EXTS, opts=None):
+    """the documented variant set under the given switches (default: all spellings on); independent of the model"""
+    cands = [c for c, on in ((name, not opts or opts['original']), (name.upper(), not opts or opts['uppercase']),
+                             (name.lower(), not opts or opts['lowcase'])) if on]
     bases = list(cands)
     if fuzzy:
         k = name.lower().find('-mib')
@@ -332,8 +333,11 @@ def run(ctx):
             if indexed and got['file'] != index[0][1]:
                 res.oracle_failures.append({'key': 'index-precedence', 'what': '.index maps %s to %s but %s was returned' % (
                     name, index[0][1], got['file']), 'input': {'filereader': req}})
-        elif got == 'notfound' and is_default(opts) and not indexed:
-            hit = present & doc_variants(name, opts['fuzzy'])
+        elif got == 'indexerror':
+            res.oracle_failures.append({'key': 'raises', 'what': 'FileReader.getData(%s) raised IndexError under %r' % (name, sorted(opts.items())),
+                                        'input': {'filereader': req}})
+        elif got == 'notfound' and not indexed:
+            hit = present & doc_variants(name, opts['fuzzy'], opts=opts)
             if hit:
                 res.oracle_failures.append({'key': 'not-found', 'what': 'FileReader reports %s not found although %s exist' % (
                     name, sorted(hit)), 'input': {'filereader': req}})
@@ -365,10 +369,13 @@ def run(ctx):
             if got['file'] not in liberal_variants(name):
                 res.oracle_failures.append({'key': 'unrelated-file', 'what': 'ZipReader returned %s for module %s' % (got['file'], name),
                                             'input': {'zipreader': req}})
-        elif got == 'notfound' and is_default(opts):
+        elif got == 'indexerror':
+            res.oracle_failures.append({'key': 'raises', 'what': 'ZipReader.getData(%s) raised IndexError under %r' % (name, sorted(opts.items())),
+                                        'input': {'zipreader': req}})
+        elif got == 'notfound':
             # a base name that also occurs with empty content may be shadowed by it (members are keyed by base name)
             shadowed = {b for b, c, m in lv if not CONTENTS[c]}
-            hit = ({b for b, c, m in lv if CONTENTS[c]} - shadowed) & doc_variants(name, opts['fuzzy'])
+            hit = ({b for b, c, m in lv if CONTENTS[c]} - shadowed) & doc_variants(name, opts['fuzzy'], opts=opts)
             if hit:
                 res.oracle_failures.append({'key': 'not-found', 'what': 'ZipReader reports %s not found although members %s exist' % (
                     name, sorted(hit)), 'input': {'zipreader': req}})
@@ -446,8 +453,10 @@ def replay(payload):
                 return {'fails': not ok, 'what': 'returned %s' % info.file}
             except error.PySmiReaderFileNotFoundError:
                 shadowed = {b for b, c, m in lv if not CONTENTS[c]}
-                hit = ({b for b, c, m in lv if CONTENTS[c]} - shadowed) & doc_variants(req['name'], req['fuzzy'])
+                hit = ({b for b, c, m in lv if CONTENTS[c]} - shadowed) & doc_variants(req['name'], req['fuzzy'], opts=req)
                 return {'fails': bool(hit), 'what': 'not found although %s exist' % sorted(hit)}
+            except IndexError:
+                return {'fails': True, 'what': 'IndexError'}
         req = inp['filereader']
         from pysmi.reader.localfile import FileReader
         root = os.path.join(base, 'mibs')
@@ -477,8 +486,10 @@ def replay(payload):
                 (not indexed or info.file == indexed[0])
             return {'fails': not ok, 'what': 'returned %s' % info.file}
         except error.PySmiReaderFileNotFoundError:
-            hit = present & doc_variants(req['name'], req['fuzzy'])
+            hit = present & doc_variants(req['name'], req['fuzzy'], opts=req)
             return {'fails': bool(hit) and not indexed, 'what': 'not found although %s exist' % sorted(hit)}
+        except IndexError:
+            return {'fails': True, 'what': 'IndexError'}
         except error.PySmiError:
             return {'fails': False, 'what': 'reader error (size limit)'}
     finally:
